@@ -68,6 +68,12 @@ CHECKS["C07"] = (MC,
     "Canonically well-formed requests (header-name vocabulary with dash/underscore aliases, case variants and names that map onto CGI variables; values with obs-text, interior whitespace, padding, empty; repeated fields; every target form incl. valid and invalid percent escapes; empty / small / spilled-to-tempfile / chunked bodies with trailers; pipelines) x url_prefix x TCP and unix peers run on the real server; for every application call TLC computes the expected environ image from the reference parse of the same bytes (Framing.tla + Trace_Environ.tla): each field once under its CGI name joined by ', ' in arrival order, underscore names absent, Transfer-Encoding removed and CONTENT_LENGTH = decoded length for chunked bodies, REQUEST_METHOD / SERVER_PROTOCOL / SCRIPT_NAME / PATH_INFO / QUERY_STRING, wsgi.input = framed body; server-defined variables unchanged by client fields; identical under three segmentations.",
     "DESIGN.md 3.3, 6 (C07)", _fr + "; Python string types are checked by the harness", _ft)
 
+CHECKS["C18"] = (MC,
+    "ServerOps.tla models BaseWSGIServer.readable()/maintenance()/handle_accept(), the channel's readable/writable/handle_read/handle_write and the select-based poll() under an integer clock. TLC explores every history of connect / send-partial / send-rest / client-reads / client-stalls / app-finishes / tick events for small constants (limit, timeouts, 1-2 listening sockets) and checks the limit, resumption of accepting, reaping in time and never-reap-busy. Seeded histories are executed on real server objects sharing a socket map (fake sockets, virtual clock, the real poll()); TLC validates each step twice: post-state projection against the model (drift otherwise) and the property monitor on what was read from the real objects.",
+    "DESIGN.md 3.9, 6 (C18)",
+    "trusted: TLC; the simulated kernel and clock; single-threaded histories (application work is an event) - the race between the end of service() and maintenance is not covered here",
+    "TLA+ model (ServerOps.tla) model-checked by TLC + trace validation of real-code histories (post-state matching + property monitor) by TLC")
+
 EXP = "exploration"
 _chan_note = "trusted: TLC (judging), the simulated kernel and scheduler shims (Lock/Condition/select/poll/pipe semantics), the independent response lexer wv/httpclient.py; schedule coverage on the code is bounded (all schedules with <= 1 pre-emption up to a limit, sampled beyond)"
 _chan_tech = "deterministic schedule exploration of the real server (bounded DFS + PCT/pre-emption sampling) with TLC trace validation against the TLA+ property monitor Pipeline.tla"
